@@ -800,3 +800,58 @@ Lemma example_destroy_ok :
   map (read (src (exec init (example_destroy ++ [Backup])))) [1; 2; 3; 5; 7] =
   [Some (1, 8); Some (1, 8); Some (1, 8); Some (1, 8); Some (2, 8)].
 Proof. vm_compute. repeat split. Qed.
+
+(* ---------- the .idx observable: entry i points at record i ---------- *)
+
+Lemma disk_size_pos : forall r, 0 < disk_size r.
+Proof.
+  intro r. unfold disk_size.
+  set (raw := 16 + (if r_live r then r_len r + 5 + r_meta r else 0) + 4 + 8).
+  assert (H : raw mod 8 < 8) by (apply N.mod_lt; discriminate). lia.
+Qed.
+
+Lemma idx_from_length : forall l b, length (idx_from b l) = length l.
+Proof. induction l as [|r l IH]; intro b; cbn [idx_from length]; [reflexivity | rewrite IH; reflexivity]. Qed.
+
+Lemma rec_at_from_ge : forall l cur off r, rec_at_from cur l off = Some r -> cur <= off.
+Proof.
+  induction l as [|x l IH]; intros cur off r H; cbn [rec_at_from] in H; [discriminate|].
+  destruct (off =? cur) eqn:E.
+  - apply N.eqb_eq in E. lia.
+  - apply IH in H. pose proof (disk_size_pos x). lia.
+Qed.
+
+(* idx entry i of [idx_from b l] carries the key and Size of record i, and following its
+   offset into the .dat (readAppendAtNs, ReadData) yields record i itself *)
+Lemma idx_entry_points_at_record : forall l b i r,
+  nth_error l i = Some r ->
+  exists off, nth_error (idx_from b l) i = Some (r_key r, off, idx_size r) /\ rec_at_from b l off = Some r.
+Proof.
+  induction l as [|x l IH]; intros b i r H; [destruct i; discriminate|].
+  destruct i as [|i]; cbn [nth_error] in H.
+  - inversion H; subst x. exists b. cbn [idx_from nth_error rec_at_from]. rewrite N.eqb_refl. split; reflexivity.
+  - destruct (IH (b + disk_size x) i r H) as [off [H1 H2]]. exists off.
+    cbn [idx_from nth_error rec_at_from]. split; [exact H1|].
+    destruct (off =? b) eqn:E; [|exact H2].
+    apply N.eqb_eq in E. apply rec_at_from_ge in H2. pose proof (disk_size_pos x). lia.
+Qed.
+
+(* so the timestamp the code reads through idx entry m (readOffsetFromIndex m, then
+   readAppendAtNs) is the timestamp of record m: what find_last_append_ns and
+   bsearch_loop use *)
+Lemma idx_entry_ts : forall v m r,
+  nth_error (recs v) m = Some r ->
+  exists k off sz, nth_error (idx_of v) m = Some (k, off, sz) /\
+                   option_map r_ts (rec_at v off) = Some (nth m (map r_ts (recs v)) 0).
+Proof.
+  intros v m r H. destruct (idx_entry_points_at_record (recs v) 8 m r H) as [off [H1 H2]].
+  exists (r_key r), off, (idx_size r). split; [exact H1|].
+  unfold rec_at. rewrite H2. cbn [option_map]. f_equal.
+  clear H1 H2. revert m H. generalize (recs v) as l.
+  induction l as [|x l IH]; intros m H; destruct m; try discriminate; cbn [nth_error map nth] in *.
+  - inversion H; reflexivity.
+  - apply IH; exact H.
+Qed.
+
+Lemma idx_of_length : forall v, length (idx_of v) = length (recs v).
+Proof. intro v. apply idx_from_length. Qed.
